@@ -38,7 +38,83 @@ def parseNats? (s : String) : Option (List Nat) :=
 def showTxos (l : List Txo) : String :=
   if l.isEmpty then "-" else ";".intercalate (l.map showTxo)
 
-def handle : List String → String
+/-! ### end-to-end chain op: the fold of a linear chain (which outputs exist, which were spent by which
+block), every surviving entry / journal / best state pushed through the model's encode→decode. -/
+
+abbrev CRef := Nat × Nat × Nat
+
+def parseRef? (s : String) : Option CRef :=
+  match s.splitOn "." with
+  | [h, t, o] => do pure ((← h.toNat?), (← t.toNat?), (← o.toNat?))
+  | _ => none
+
+def parseCOut? (s : String) : Option (Nat × List UInt8) :=
+  match s.splitOn "." with
+  | [a, sc] => do pure ((← a.toNat?), (← hexToList? sc))
+  | _ => none
+
+def parseCTx? (s : String) : Option (List CRef × List (Nat × List UInt8)) :=
+  match s.splitOn ";" with
+  | [ins, outs] => do
+    let i ← if ins == "-" then some [] else (ins.splitOn ",").mapM parseRef?
+    let o ← (outs.splitOn ",").mapM parseCOut?
+    pure (i, o)
+  | _ => none
+
+def parseCBlock? (s : String) : Option (List (List CRef × List (Nat × List UInt8))) :=
+  (s.splitOn "/").mapM parseCTx?
+
+/-- txscript.IsUnspendable on the generated lines: OP_RETURN first or longer than MaxScriptSize. -/
+def unspendable (s : List UInt8) : Bool := s.head? == some 0x6a || s.length > 10000
+
+abbrev Created := List (CRef × Option Txo)
+
+def spendRef (st : Created) (r : CRef) : Created × Option Txo :=
+  match st.find? (fun p => p.1 == r) with
+  | some (_, some t) => (st.map (fun p => if p.1 == r then (p.1, none) else p), some t)
+  | _ => (st, none)
+
+/-- one transaction: spend the inputs in order, then add the outputs -/
+def applyTx (st : Created) (h t : Nat) (tx : List CRef × List (Nat × List UInt8)) : Created × List Txo :=
+  let (st1, stxos) := tx.1.foldl (fun (acc : Created × List Txo) r =>
+      let (s', o) := spendRef acc.1 r
+      (s', match o with | some x => acc.2 ++ [x] | none => acc.2)) (st, [])
+  let outs := (List.range tx.2.length).zip tx.2 |>.map (fun (o, (a, sc)) =>
+      (((h, t, o) : CRef), if unspendable sc then none else some (⟨a, sc, (h : Int), t == 0⟩ : Txo)))
+  (st1 ++ outs, stxos)
+
+def applyBlock (st : Created) (h : Nat) (blk : List (List CRef × List (Nat × List UInt8))) :
+    Created × List Txo × List Nat :=
+  let idx := (List.range blk.length).zip blk
+  idx.foldl (fun (acc : Created × List Txo × List Nat) (t, tx) =>
+      let (s', stx) := applyTx acc.1 h t tx
+      if t == 0 then (s', acc.2.1, acc.2.2) else (s', acc.2.1 ++ stx, acc.2.2 ++ [tx.1.length])) (st, [], [])
+
+def chainAnswer (blocks : List (List (List CRef × List (Nat × List UInt8)))) : String :=
+  let idx := (List.range blocks.length).zip blocks
+  let (st, journals) := idx.foldl (fun (acc : Created × List String) (i, blk) =>
+      let (s', stx, shape) := applyBlock acc.1 (i + 1) blk
+      let j := match deserializeSpendJournalEntry C (serializeSpendJournalEntry C stx) shape with
+        | .ok l => showTxos l
+        | _ => "err"
+      (s', acc.2 ++ [j])) ([], [])
+  let total := 1 + (blocks.map List.length).sum
+  let best := match deserializeBestChainState (serializeBestChainState ⟨List.replicate 32 0, blocks.length, total, 0⟩) with
+    | .ok b => s!"best={b.height},{b.totalTxns},tipok"
+    | _ => "best=err"
+  let utxos := st.map (fun p => match p.2 with
+    | none => "x"
+    | some e => match deserializeUtxoEntry C (serializeUtxoEntry C e) with
+      | .ok t => showTxo t
+      | _ => "err")
+  let u := if utxos.isEmpty then "utxo=-" else "utxo=" ++ ",".intercalate utxos
+  let j := if journals.isEmpty then "j=-" else "j=" ++ "|".intercalate journals
+  " ".intercalate [best, u, j, "blk=ok", "stable=ok"]
+
+def handle1 : List String → String
+  | "chain" :: _cfg :: blocks => match blocks.mapM parseCBlock? with
+    | some bs => chainAnswer bs
+    | none => "bad-op"
   | ["vlq", n] => match n.toNat? with
     | some n => s!"{listToHex (putVLQ n)} {serializeSizeVLQ n}"
     | none => "bad-op"
@@ -142,5 +218,10 @@ def handle : List String → String
     | some hash, some idx => if hash.length ≠ 32 then "bad-op" else listToHex (outpointKey hash idx)
     | _, _ => "bad-op"
   | _ => "bad-op"
+
+/-- `par`: independent sub-lines (tokens joined by `~`, sub-lines by `|`), answers joined by `|`. -/
+def handle : List String → String
+  | ["par", arg] => "|".intercalate ((arg.splitOn "|").map (fun s => handle1 (s.splitOn "~")))
+  | l => handle1 l
 
 end BV.C15.Driver
